@@ -239,3 +239,43 @@ PROPS["C18"] = {
     "tolerances": {"scaled residual limit": "1e-3; scale = max(|lhs|,|rhs|, 1e-6 * largest magnitude of that derivative over all knots or |data|/Tmin^m)"},
     "assumptions": ["residuals are evaluated in long double from getCoefficients() with the input durations"],
 }
+
+# ---------------------------------------------------------------------------------------------
+# gradient properties of the splines: C05 C06
+for d in ALL_DIMS:
+    T("spline_adj_d%d" % d, "spline_adj.cpp", defs=["VDIM=%d" % d], selftest=(d == 2))
+
+ADJ_QUICK_DIMS = {"C05": [1, 2, 3, 4, 6, 8, 10], "C06": [1, 2, 3, 4, 5, 9]}
+
+
+def _adj_jobs(prop, per_quick, per_thorough):
+    def jobs(tier):
+        dims = ADJ_QUICK_DIMS[prop] if tier == "quick" else ALL_DIMS
+        per = per_quick if tier == "quick" else per_thorough
+        out = []
+        for d in dims:
+            out += split("spline_adj_d%d" % d, per, 2)
+        return out
+    return jobs
+
+
+PROPS["C05"] = {
+    "jobs": _adj_jobs("C05", 2400, 100000),
+    "floor_quick": 12000, "floor_thorough": 800000,
+    "rule": "order x dimension (quick 1,2,3,4,6,8,10; thorough 1..10) x N (1,2,3 over-represented, up to 16) x " + _S4 + "; per case three upstream gradients from the classes {dense, single unit entry (any coefficient row), "
+            "only the rows c_0..c_{s-1}, one segment's block, zero gdC with unit gdT, sparse c_0 rows}, each after a history of 0..3 earlier propagateGrad calls with unrelated gradients through both overloads interleaved with "
+            "getEnergy/evaluate. Oracle: dense long-double Jacobian of (P,T,bc)->coefficients (R4), every output component compared. non-trivial = a unit-vector / low-rows / c_0-rows upstream gradient, or N <= 2",
+    "tolerances": {"generic components": "1e-7 * sigma, sigma = |J|^T|G| (sum of absolute terms)", "components vanishing by exact cancellation": "1e-12 (cubic) / 1e-11 (quintic) / 1e-10 (septic) of the natural magnitude of such an entry",
+                   "linearity (power-of-two factors), history independence, overloads": "bitwise"},
+    "assumptions": ["well-scaled duration domain of DESIGN.md s4", "reference Jacobian validated against central differences of the reference solve in --selftest"],
+}
+PROPS["C06"] = {
+    "jobs": _adj_jobs("C06", 1800, 80000),
+    "floor_quick": 8000, "floor_thorough": 500000,
+    "rule": "order x dimension (quick 1,2,3,4,5,9; thorough 1..10) x N x " + _S4 + " with non-zero boundary derivatives forced in >= 75% of cases; checked: (i) partial gradients (both overloads, with dirty / wrongly sized output "
+            "buffers) vs the exact derivative of the energy integral of the published coefficients, (ii) getEnergyGrad and its three parts vs the reference Jacobian applied to the reference partials at the reference minimiser "
+            "(no library code), (iii) for 1/3 of the cases (N <= 8) central differences with Richardson extrapolation of the REPORTED getEnergy() w.r.t. every duration, waypoint coordinate and boundary-state component, "
+            "(iv) propagateGrad(partials) vs the same reference. non-trivial = non-zero boundary derivatives and N >= 2",
+    "tolerances": {"partials": "1e-11 of the sum of absolute terms", "totals": "as C05", "finite differences": "1e-6 * sigma + 2|D(h/2)-D(h)| + (8 eps + order-specific solve noise) |E| / h"},
+    "assumptions": ["well-scaled duration domain of DESIGN.md s4"],
+}
